@@ -14,6 +14,9 @@ their character codes (`_` = empty string); a separator as its character code.
   csvdir <geo> <idE> <idN> <idU> <idT> <sep> <h> <hdrR> <pfmt> <rfmt> <tracks> <srid>    tracks: `<rows>|<rows>…` (`_` = no row)
        writeToCsv(collection, dir, format) then readFromCsv(dir, …) with the files listed in the order written
                                         → W:<hex>|<hex>… R:ok <rows>|<rows>… (or werr:/err:)
+  wktfile <sep> <hdr> <hdrR> <quoted> <dq> <blank> <pw> <pu> <pt> <iu> <it> <d> <tracks>   tracks: `uid,tid,x:y|x:y…;…` (ids in hex)
+       the file a user writes with sep.join([...track.toWKT()...]) read by readFromWkt(path, pw, iu, it, sep, hdrR, doublequote=dq)
+                                        → W:<hex> R:ok uid,tid,x:y:z|…;… (uid / tid `-` when not read) | R:err:<kind>
   gpxc <geo> <rfmt> <names> <tracks>    writeToGpx(collection, file): names `<hex>,…`, tracks `<rows>|<rows>…` → as `gpx`
        read rows: `xm/xd,ym/yd,zm/zd,Y,M,D,h,m,s,ms;…`
        names `<hex>,…`; values `v,…;…` per observation, v: `m/d` | `nan` | `inf` | `-inf` | `S<hex>`
@@ -164,8 +167,34 @@ def handleCsvDir (geo ie iN iu it sep h hr pf rf tracks srid : String) : String 
     | _, _, _, _ => "bad-request"
   | _, _, _, _, _, _, _, _ => "bad-request"
 
+def wtrackOf? (s : String) : Option (Str × Str × List Pt) :=
+  match splitTok s ',' with
+  | [u, t, g] => do
+    let u ← unhex? u
+    let t ← unhex? t
+    let g ← (splitTok g '|').mapM ptOf?
+    pure (u, t, g)
+  | _ => none
+
+def showOptStr : Option Str → String
+  | none => "-"
+  | some s => toHex s
+
 def handle (cmd : String) (args : List String) : String :=
   match cmd, args with
+  | "wktfile", [sep, hdr, hr, quoted, dq, blank, pw, pu, pt, iu, it, d, tracks] =>
+    match sepOf? sep, hdr.toNat?, hr.toNat?, quoted.toNat?, dq.toNat?, blank.toNat?, pw.toNat?, pu.toNat? with
+    | some sep, some hdr, some hr, some quoted, some dq, some blank, some pw, some pu =>
+      match pt.toNat?, iu.toInt?, it.toInt?, d.toNat?, (splitTok tracks ';').mapM wtrackOf? with
+      | some pt, some iu, some it, some d, some trks =>
+        if iu < -1 ∨ it < -1 then "bad-request" else
+        let text := wktFile sep (hdr == 1) (quoted == 1) (blank == 1) pw pu pt d trks
+        let r := match readWktFile ⟨pw, iu, it, sep, hr, dq == 1⟩ text with
+          | .ok ts => "ok " ++ joinWith ";" (ts.map (fun (t : WTrack) => s!"{showOptStr t.uid},{showOptStr t.tid},{joinWith "|" (t.pts.map showV3)}"))
+          | .error e => s!"err:{e}"
+        s!"W:{toHex text} R:{r}"
+      | _, _, _, _, _ => "bad-request"
+    | _, _, _, _, _, _, _, _ => "bad-request"
   | "csvdir", [geo, ie, iN, iu, it, sep, h, hr, pf, rf, tracks, srid] => handleCsvDir geo ie iN iu it sep h hr pf rf tracks srid
   | "gpxc", [geo, rf, names, tracks] =>
     match geo.toNat?, unhex? rf, (splitTok names ',').mapM unhex?, (splitTok tracks '|').mapM trackOf? with
